@@ -138,6 +138,12 @@ func (p *Prog) d(v ssa.Value, depth int, seen map[ssa.Value]bool) string {
 		if isRangeIndexPhi(x) {
 			return "ι-1"
 		}
+		if k, ok := forCounterPhi(x); ok {
+			if k == "0" {
+				return "ι"
+			}
+			return "ι@" + k
+		}
 		var parts []string
 		set := map[string]bool{}
 		for _, e := range x.Edges {
@@ -459,4 +465,25 @@ func isRangeIndexPhi(v ssa.Value) bool {
 		}
 	}
 	return false
+}
+
+// forCounterPhi: the counter of a `for i := k; …; i++` loop (phi [k, counter+1] in a for.loop block).
+func forCounterPhi(phi *ssa.Phi) (string, bool) {
+	if phi.Block().Comment != "for.loop" || len(phi.Edges) != 2 {
+		return "", false
+	}
+	var start string
+	inc := false
+	for _, e := range phi.Edges {
+		if k, ok := e.(*ssa.Const); ok && k.Value != nil {
+			start = k.Value.ExactString()
+			continue
+		}
+		if b, ok := e.(*ssa.BinOp); ok && b.Op == token.ADD && b.X == ssa.Value(phi) {
+			if k, ok := b.Y.(*ssa.Const); ok && k.Value != nil && k.Value.ExactString() == "1" {
+				inc = true
+			}
+		}
+	}
+	return start, inc && start != ""
 }
